@@ -2,8 +2,12 @@ package stdlib
 
 import (
 	"bytes"
+	"fmt"
 	"strings"
+	"unicode/utf16"
 	"unicode/utf8"
+
+	"golang.org/x/text/unicode/norm"
 
 	"github.com/zclconf/go-cty/cty"
 	"github.com/zclconf/go-cty/cty/function"
@@ -66,7 +70,7 @@ var JSONEncodeFunc = function.New(&function.Spec{
 		// assume there will be no leading whitespace before the value.
 		buf = bytes.TrimSpace(buf)
 
-		return cty.StringVal(string(buf)), nil
+		return cty.StringVal(string(jsonNormalizationSafe(buf))), nil
 	},
 })
 
@@ -128,6 +132,40 @@ var JSONDecodeFunc = function.New(&function.Spec{
 		return json.Unmarshal(buf, retType)
 	},
 })
+
+// jsonNormalizationSafe makes a JSON text safe to hold in a cty string.
+//
+// cty strings are always NFC-normalized, and normalization would combine a
+// combining character with an ASCII character before it. In JSON produced
+// from (already normalized) cty strings that can only happen when the ASCII
+// character is the end of an escape sequence: the text for a newline followed
+// by U+0327 would turn from \n U+0327 into a backslash followed by U+0146,
+// which is not valid JSON. Such a combining character is written as a \uXXXX
+// escape instead, which decodes to the same string.
+func jsonNormalizationSafe(buf []byte) []byte {
+	if norm.NFC.IsNormal(buf) {
+		return buf
+	}
+	out := make([]byte, 0, len(buf)+16)
+	for i := 0; i < len(buf); {
+		r, size := utf8.DecodeRune(buf[i:])
+		if r >= utf8.RuneSelf && len(out) > 0 && out[len(out)-1] < utf8.RuneSelf {
+			pair := append([]byte{out[len(out)-1]}, buf[i:i+size]...)
+			if !norm.NFC.IsNormal(pair) {
+				if r1, r2 := utf16.EncodeRune(r); r1 != utf8.RuneError {
+					out = append(out, fmt.Sprintf(`\u%04x\u%04x`, r1, r2)...)
+				} else {
+					out = append(out, fmt.Sprintf(`\u%04x`, r)...)
+				}
+				i += size
+				continue
+			}
+		}
+		out = append(out, buf[i:i+size]...)
+		i += size
+	}
+	return out
+}
 
 // JSONEncode returns a JSON serialization of the given value.
 func JSONEncode(val cty.Value) (cty.Value, error) {
